@@ -165,6 +165,16 @@ Theorem C19_copy_behaves_like_source : forall h sd ops, side_ok h sd -> wf2 h sd
 Proof. exact copy_behaves_like_source. Qed.
 Print Assumptions C19_copy_behaves_like_source.
 
+(* interleaved histories of the whole system: whatever happens on the other sides - copies included - the abstract
+   state of side j after ANY history is the abstract machine run on exactly the operations addressed to side j
+   (independence and fresh behaviour in one statement) *)
+Theorem C19_side_history : forall st ops j sd, Inv st -> Inv2 st -> nth_error (st_sides st) j = Some sd ->
+  exists sd', nth_error (st_sides (run_states st ops)) j = Some sd' /\
+              absf (st_heap (run_states st ops)) sd'
+              = afinal (absf (st_heap st) sd) (filter (fun o => touches o j) ops).
+Proof. exact side_history. Qed.
+Print Assumptions C19_side_history.
+
 (* --- non-vacuity -------------------------------------------------------------------------------- *)
 (* a 2x2 von Neumann grid, capacity 2, one extra layer (name 1, default 3): place two agents, write a cell
    attribute, copy, then work on the copy and on the original *)
